@@ -127,8 +127,11 @@ def chk_pipeline(inp):
         if o.get(k):
             argv.append("--" + k)
     argv += ["--save_as_tum", "--save_as_kitti", "--no_warnings", "--silent"]
+    import contextlib
+    import io
     try:
-        args = main_traj_parser.parser().parse_args(argv)
+        with contextlib.redirect_stderr(io.StringIO()):
+            args = main_traj_parser.parser().parse_args(argv)
     except SystemExit:
         return []
     cwd = os.getcwd()
